@@ -23,6 +23,7 @@ size_t g_str_k;
 
 #define ROOM(p) (__CPROVER_OBJECT_SIZE(p) - __CPROVER_POINTER_OFFSET(p))
 
+size_t g_last_strlen;	/* ghost: result of the most recent strlen() */
 size_t strlen(const char *s)
 {
 	__CPROVER_assert(s != NULL, "strlen: non-NULL argument");
@@ -44,6 +45,7 @@ size_t strlen(const char *s)
 	/* ... nor at offset 255 (libjwt's error buffers are 256 bytes and keep a NUL
 	 * in their last byte: strlen of such a buffer is at most 255) */
 	__CPROVER_assume(n <= 255 || s[255] != 0);
+	g_last_strlen = n;
 	return n;
 }
 
